@@ -23,6 +23,10 @@ ANC_PROPS = {
     1: [[1]],
     2: [[Fraction(1, 2), Fraction(1, 2)], [Fraction(1, 4), Fraction(3, 4)], [Fraction(7, 8), Fraction(1, 8)]],
     3: [[Fraction(1, 4), Fraction(1, 4), Fraction(1, 2)], [Fraction(1, 8), Fraction(1, 8), Fraction(3, 4)]],
+    # (4 and 5 ancestors: lists whose conditional fractions p[k] / sum(p[k:]), which to_ms prints, are dyadic, so that
+    #  the exact comparison of lineage movements stays exact)
+    4: [[Fraction(1, 2), Fraction(1, 4), Fraction(1, 8), Fraction(1, 8)], [Fraction(3, 4), Fraction(1, 8), Fraction(1, 16), Fraction(1, 16)]],
+    5: [[Fraction(1, 2), Fraction(1, 4), Fraction(1, 8), Fraction(1, 16), Fraction(1, 16)]],
 }
 NAMES = ["A", "B", "C", "D", "E", "F", "G", "H", "pop_1", "_x", "Z9", "deme1",
          # valid identifiers beyond ASCII (XID_Start / XID_Continue; Model/Ident.lean): Greek, CJK, a combining accent,
@@ -79,7 +83,7 @@ def gen_model(rng: random.Random, *, max_demes=6, time_scale=8, gen_times=(1, 2,
         anc = []
         start = INF
         if i > 0 and rng.random() > 0.15:
-            k = rng.choice([1, 1, 1, 2, 2, 3])
+            k = rng.choice([1, 1, 1, 1, 2, 2, 2, 3, 3, 4, 5])
             k = min(k, i)
             cand = rng.sample(m.demes, k)
             times = set(grid) | {a["end_time"] for a in cand}
